@@ -43,6 +43,33 @@ Fixpoint has_next (r : rule) : bool :=
   end.
 
 
+
+(* ---- the class the property text does not settle: a next_rule written in the level of a refinement that is not the
+   first refinement of its rule (RR{N}, R{A}R{N}, ...).  When an earlier sibling refinement fires, the Spec's reading
+   (sibling refinements form one else-if level, a next_rule of that level fires in addition) and the tree's reading (the
+   first written refinement overrides everything written after it) differ.  Such programs are outside the fragment and
+   are compared with the model only. ---- *)
+Fixpoint next_in_level (r : rule) : bool :=
+  match r with
+  | Rule _ _ body => (fix go (l : list (kind * rule)) : bool :=
+                        match l with
+                        | [] => false
+                        | (KNext, _) :: _ => true
+                        | (KAlt, q) :: l' => next_in_level q || go l'
+                        | (KRef, _) :: l' => go l'
+                        end) body
+  end.
+Fixpoint later_ref_next (r : rule) : bool :=
+  match r with
+  | Rule _ _ body =>
+      (fix go (l : list (kind * rule)) (seen_ref : bool) : bool :=
+         match l with
+         | [] => false
+         | (KRef, q) :: l' => (seen_ref && next_in_level q) || later_ref_next q || go l' true
+         | (_, q) :: l' => later_ref_next q || go l' seen_ref
+         end) body false
+  end.
+
 (* ---- pure per-element evaluation of a tree without Next: (is_false, conclusions selected) ---- *)
 Fixpoint pe (t : tree) (e : elem) : bool * list nat :=
   match t with
